@@ -9,18 +9,33 @@ for pf in glob.glob(VER+'/nv/props/c*.py'):
     if not re.match(r'C\d\d$',pid): continue
     for n in re.findall(r"is_var\('([A-Za-z_]+)'\)", open(pf).read()):
         pairs.add((pid,n))
+STR=re.compile(r'"(?:\\.|[^"\\])*"|\'(?:\\.|[^\'\\])*\'')
+def rename(src, name):
+    """whole-word rename outside string / character literals and preprocessor lines; not a member access, not a call"""
+    rx=re.compile(r'(?<![\w.>:])'+re.escape(name)+r'(?!\w|\s*\()')
+    out=[]
+    for line in src.split('\n'):
+        if line.lstrip().startswith('#'):
+            out.append(line); continue
+        pos=0; res=[]
+        for m in STR.finditer(line):
+            res.append(rx.sub(name+'_rn', line[pos:m.start()])); res.append(m.group(0)); pos=m.end()
+        res.append(rx.sub(name+'_rn', line[pos:]))
+        out.append(''.join(res))
+    return '\n'.join(out)
+
+
 def one(pn):
     pid,name=pn
     tmp=tempfile.mkdtemp(prefix='nvren-',dir=os.environ.get('TMPDIR', '/tmp'))
     try:
         os.makedirs(tmp+'/repo'); shutil.copytree('/repo/src',tmp+'/repo/src'); shutil.copy('/repo/CMakeLists.txt',tmp+'/repo/')
         changed=[]
-        rx=re.compile(r'(?<![\w.>:"])'+re.escape(name)+r'(?![\w"]|\s*\()')
         for f in glob.glob(tmp+'/repo/src/*.cc'):
             if f.endswith('_test.cc') or 'win32' in f or 'msvc' in f or f.endswith('test.cc'): continue
             s=open(f).read()
             # strip nothing; rename whole-word uses that are not member accesses / calls / string contents
-            s2=rx.sub(name+'_rn',s)
+            s2=rename(s,name)
             if s2!=s:
                 open(f,'w').write(s2); changed.append(f)
         bad=[]
